@@ -29,12 +29,19 @@ def _stmt(n):
     return n
 
 
+def _flat_and(test):
+    if isinstance(test, ast.BoolOp) and isinstance(test.op, ast.And):
+        return [x for v in test.values for x in _flat_and(v)]
+    return [test]
+
+
 def check(ctx) -> None:
     repo = ctx.repo
     ctx.rule("C33.eof", "the parent's copy of the pipe's sending end is closed after process.start() on every path and never escapes into an attribute / container (else recv never sees EOF when the worker dies)", floor=4)
     ctx.rule("C33.variant", "every path of _restart to _start_worker passes _adjust_search_time_after_crash(elapsed since start) and the `maximum_search_time <= 0` abort", floor=4)
     ctx.rule("C33.decrease", "ABSINT over a boundary partition: for budget > 0 and elapsed > 0 the adjusted budget is an int, >= 0 and strictly smaller than the old one", floor=1)
     ctx.rule("C33.recurse", "get_result: recv failures of any kind enter the restart path; recursion only after _restart() returned true; a failed restart returns an ERROR result", floor=4)
+    ctx.rule("C33.liveness", "GUARD-DOM: recv() on the result pipe is reached only after poll() reported data, the wait is a loop over poll(timeout) that ends (raise / return / break) when the worker process is not alive: the master does not depend on EOF, which a process forked by the worker can withhold", floor=3)
     ctx.rule("C33.codes", "the master builds WorkerResult only with return_code=None and ERROR; the worker reports OK with the pipeline's own return code only after run_pynguin returned; the client maps every WorkerReturnCode and never invents success", floor=6)
 
     # ------------------------------------------------------------------ C33.eof
@@ -190,7 +197,37 @@ def check(ctx) -> None:
     ctx.check("C33.recurse", gr, bool(rec) and p is None, "get_result waits again although no worker was restarted: the call blocks on a dead pipe / recurses without bound", what="recursion only after a successful restart", path=cfg.describe_path(p) if p else [], stmt="[recurse]")
     # loops are not allowed to retry recv without restart
     loops = [n for n in own_nodes(gr) if isinstance(n, (ast.While, ast.For))]
-    ctx.check("C33.recurse", gr, not loops, "get_result retries in a loop (not covered by the restart-variant argument)", what="no retry loop", stmt="[loop]")
+
+    def bounded_wait(lp) -> bool:
+        """`while not <conn>.poll(<timeout>)`: waits for data, nothing is retried"""
+        return isinstance(lp, ast.While) and isinstance(lp.test, ast.UnaryOp) and isinstance(lp.test.op, ast.Not) and isinstance(lp.test.operand, ast.Call) and last_attr(lp.test.operand) == "poll" and bool(lp.test.operand.args or lp.test.operand.keywords)
+
+    other = [lp for lp in loops if not bounded_wait(lp)]
+    ctx.check("C33.recurse", other[0] if other else gr, not other, "get_result retries in a loop (not covered by the restart-variant argument)", what="no retry loop", stmt="[loop]")
+    # ------------------------------------------------------------------ C33.liveness
+    for r in recv:
+        conn = norm(r.func.value)
+
+        def polled(lit, conn=conn):
+            _k, e, pol = lit
+            return pol and isinstance(e, ast.Call) and norm(e.func) == f"{conn}.poll"
+
+        st = r
+        while not isinstance(st, ast.stmt):
+            st = parent(st)
+        p = unguarded_path(cfg, cfg.nodes_of(st), polled)
+        ctx.paths += 1
+        ctx.check("C33.liveness", st, p is None, f"`{norm(r)}` blocks until the pipe delivers data or EOF, and EOF needs every copy of the sending end to be closed: a process forked by the worker (subprocess mode forks executor children) inherits it, so when the worker is killed while such a child lives - or hangs in a non-terminating test - the master waits forever. recv() must only be reached after `{conn}.poll(...)` reported data", what="recv only after poll() reported data", path=cfg.describe_path(p) if p else None, stmt="[recv after poll]")
+    waits = [lp for lp in loops if bounded_wait(lp)]
+    for lp in waits:
+        exits = [i for i in ast.walk(lp) if isinstance(i, ast.If) and any(isinstance(c, ast.Call) and last_attr(c) == "is_alive" for c in ast.walk(i.test)) and any(isinstance(x, (ast.Raise, ast.Return, ast.Break)) for x in ast.walk(i))]
+        neg = False
+        for i in exits:
+            for lit in _flat_and(i.test):
+                if isinstance(lit, ast.UnaryOp) and isinstance(lit.op, ast.Not) and isinstance(lit.operand, ast.Call) and last_attr(lit.operand) == "is_alive":
+                    neg = True
+        ctx.check("C33.liveness", lp, bool(exits) and neg, "the wait for the worker's result does not end when the worker process is no longer alive: a worker that died while one of its children keeps the pipe open leaves the master waiting", what="the wait loop ends when the worker is dead", stmt="[wait ends with the worker]")
+    ctx.check("C33.liveness", gr, bool(waits), "get_result does not wait with a timeout: nothing observes the death of the worker while the pipe stays open", what="bounded wait present", stmt="[bounded wait]")
     errs = [n for n in own_nodes(gr) if isinstance(n, ast.Call) and norm(n.func) == "WorkerResult"]
     okc = bool(errs) and all({k.arg: norm(k.value) for k in c.keywords}.get("worker_return_code") == "WorkerReturnCode.ERROR" and {k.arg: norm(k.value) for k in c.keywords}.get("return_code") == "None" for c in errs)
     ctx.check("C33.recurse", gr, okc, "a failed restart does not produce an ERROR result without return code", what="failed restart -> ERROR result", stmt="[error-result]")
